@@ -32,7 +32,7 @@ ASSUMPTIONS = [
   "wall-clock timeout is inconclusive, never a violation",
   "configurations are sampled per input (1 SRT, 2 VTT, 2 IMSC, 1 LCD), not exhaustively crossed",
 ]
-REQUIRED = ["fmt:ttml", "fmt:scc", "fmt:stl", "fmt:srt", "fmt:vtt", "kind:valid", "kind:mutated", "kind:corpus", "kind:soup", "reader:returned-doc",
+REQUIRED = ["fmt:ttml", "fmt:scc", "fmt:stl", "fmt:srt", "fmt:vtt", "kind:valid", "kind:mutated", "kind:corpus", "kind:soup", "ttml-soup:style-loop", "ttml-soup:set-kids", "ttml-soup:misplace", "reader:returned-doc",
             "reader:documented-failure", "stage:isd", "stage:srt", "stage:vtt", "stage:imsc", "stage:lcd", "stage:post-lcd-writers"]
 SHARD_TIMEOUT = {"quick": 900, "thorough": 7200}
 N = {"quick": 110, "thorough": 6000}
@@ -40,6 +40,17 @@ SRC = os.path.join(core.REPO, "src/test/resources")
 MAX_INPUT = 16 * 1024
 CASE_CPU_BUDGET = 120   # seconds of this process's CPU time per case
 ALLOWED_READER = (et.ParseError, ValueError, struct.error)
+
+
+DEEP = 300    # D-DEEP-NESTING is attributed only to inputs that nest at least this many tags / elements
+
+
+def deep_nesting_finding(e, fmt, data):
+  """Known finding: the recursive tree walks of the IMSC reader (about 330 levels), of ISD generation, the writers and the filters (about
+  1000 levels) exhaust the interpreter stack. Any RecursionError on an input nested less deeply than DEEP is NOT this finding."""
+  if isinstance(e, RecursionError) and fmt in ("ttml", "srt", "vtt") and soup.nesting_depth(fmt, data) >= DEEP:
+    return "D-DEEP-NESTING"
+  return None
 
 
 class Stuck(BaseException):
@@ -82,10 +93,9 @@ def gen_valid(rng, fmt, tier):
   # ttml: an IMSC document written from a generated model document
   import ttconv.imsc.writer as imsc_writer
   try:
-    from vt.gen import ttml as gt     # grammar generator (built for C04), when available
-    if hasattr(gt, "gen_document") and rng.random() < 0.5:
-      r = gt.gen_document(rng)
-      return (r[0] if isinstance(r, tuple) else r).encode("utf-8"), None
+    from vt.gen import ttml as gt     # schema generator (built for C04)
+    if rng.random() < 0.5:
+      return gt.generate(rng)[0].encode("utf-8"), None
   except Exception:  # pylint: disable=broad-except
     pass
   adoc, _ = model_docs.generate(rng, rng.choice(["isd", "style", "text"]), None, p_markup=0.05)
@@ -152,7 +162,8 @@ def downstream(ctx, rng, doc, payload, what):
       ctx.violation(f"does-not-return:{name.split('[')[0]}", f"{what}: stage {name} did not return within the watchdog", payload)
       raise
     except Exception as e:  # pylint: disable=broad-except
-      ctx.violation(f"{name.split('[')[0]}-raises:{exc_site(e)}", f"{what}: stage {name} raised {type(e).__name__}: {e}", payload)
+      ctx.violation(f"{name.split('[')[0]}-raises:{exc_site(e)}", f"{what}: stage {name} raised {type(e).__name__}: {e}", payload,
+                    finding=deep_nesting_finding(e, payload["fmt"], bytes.fromhex(payload["data_hex"])))
       return False
 
   def isd_stage():
@@ -188,13 +199,22 @@ def has_content(doc):
   b = doc.get_body()
   if b is None:
     return False
+  # explicit stack: the harness itself must not depend on the interpreter's recursion limit (deeply nested documents)
+  stack = [b]
   n = 0
-  for e in b.dfs_iterator():
+  while stack and n < 5000:
+    e = stack.pop()
     n += 1
-    if type(e).__name__ == "Text" and e.get_text().strip():
-      return True
-    if n > 5000:
-      break
+    if type(e).__name__ == "Text":
+      if e.get_text().strip():
+        return True
+      continue
+    c = e.first_child() if hasattr(e, "first_child") else None
+    kids = []
+    while c is not None:
+      kids.append(c)
+      c = c.next_sibling()
+    stack.extend(reversed(kids))
   return False
 
 
@@ -217,7 +237,7 @@ def run_case(ctx, rng, fmt, data: bytes, cfg, kind):
       ctx.violation(f"does-not-return:{fmt}-reader", f"{what}: the reader did not return within the watchdog", payload)
       return
     except Exception as e:  # pylint: disable=broad-except
-      fid = None
+      fid = deep_nesting_finding(e, fmt, data)
       if fmt == "vtt" and isinstance(e, TypeError) and exc_site(e).endswith("model.push_child") and \
           "Children of span must be span or br instances" in str(e) and b"<ruby" in data.lower():
         fid = "D-VTT-RUBY-IN-SPAN"
@@ -259,10 +279,19 @@ def run(ctx, params):
         data = mutate.mutate_stl(rng, data) if fmt == "stl" else mutate.mutate_text(rng, data)
         kind = "mutated"
     elif fmt in ("scc", "srt", "vtt") and r < 0.5:
-      data = soup.gen(rng, fmt)
+      if fmt != "scc" and rng.random() < 0.08:
+        data = soup.deep_text(rng, fmt)
+        ctx.count("class:deep-nesting")
+      else:
+        data = soup.gen(rng, fmt)
       kind = "soup"
       if fmt == "scc":
         cfg = {"text_align": rng.choice(["auto", "left", "center", "right"])}
+    elif fmt == "ttml" and r < 0.5:
+      data, ops = soup.ttml_soup(rng)
+      for op in ops:
+        ctx.count("ttml-soup:" + op)
+      kind = "soup"
     else:
       try:
         data, cfg = gen_valid(rng, fmt, tier)
